@@ -54,15 +54,28 @@ out["get_opcode_named"] = named
 import re
 si = []
 for name, bs in out["magics"]:
-    m = re.match(r"^(\d+)\.(\d+)\.(\d+)(?:rc(\d+))?$", name)
+    m = re.match(r"^(\d+)\.(\d+)\.(\d+)(?:(rc|alpha|beta)(\d+))?$", name)
     if not m:
         continue
-    info = (int(m.group(1)), int(m.group(2)), int(m.group(3)), "candidate" if m.group(4) else "final", int(m.group(4) or 0))
+    level = {"rc": "candidate", "alpha": "alpha", "beta": "beta", None: "final"}[m.group(4)]
+    info = (int(m.group(1)), int(m.group(2)), int(m.group(3)), level, int(m.group(5) or 0))
     try:
         got = list(M.sysinfo2magic(info))
     except Exception as e:
         got = "raised " + type(e).__name__
     si.append((name, list(info), got, bs))
 out["sysinfo2magic_calls"] = si
+# the header stage on a file of every table magic: the magic load_module reports back
+import io, struct
+from xdis.load import load_module_from_file_object
+rep = []
+for k, _ in out["magicint2version"]:
+    try:
+        with contextlib.redirect_stdout(buf), contextlib.redirect_stderr(buf):
+            t = load_module_from_file_object(io.BytesIO(struct.pack("<H", k) + b"\r\n" + b"\0" * 60), "x.pyc", get_code=False)
+        rep.append((int(k), int(t[2])))
+    except Exception as e:
+        rep.append((int(k), None))
+out["reported_magic"] = rep
 out["python_magic_int"] = int(M.PYTHON_MAGIC_INT)
 print("@@JSON@@" + json.dumps(out))
